@@ -34,7 +34,7 @@ ASSUMPTIONS = [
     "measure_reserved_mem is documented as running a trivial computation and is treated as a compute entry point",
     "the harness's own writes of input Zarr arrays are made with the tracer paused and live under <workdir>/inputs, which is excluded from the snapshot",
 ]
-NSHARDS = {"quick": 16, "thorough": 32}
+NSHARDS = {"quick": 16, "thorough": 16}
 PER_SHARD = {"quick": 120, "thorough": 700}
 
 EXEC = {"n": 0}
@@ -399,9 +399,9 @@ def finalize(tier, merged):
     return {
         "rule": RULE,
         "floors": [
-            ("monitored phases (build/plan/inspect)", c.get("phases", 0), 4000 if tier == "quick" else 50000),
-            ("lazy (Zarr-backed) arrays built under the monitors", c.get("lazy_arrays_built", 0), 3000 if tier == "quick" else 35000),
-            ("documented triggers confirmed to execute", c.get("triggers_confirmed", 0), 12 * 16 if tier == "quick" else 12 * 32),
+            ("monitored phases (build/plan/inspect)", c.get("phases", 0), 4000 if tier == "quick" else 25000),
+            ("lazy (Zarr-backed) arrays built under the monitors", c.get("lazy_arrays_built", 0), 3000 if tier == "quick" else 17500),
+            ("documented triggers confirmed to execute", c.get("triggers_confirmed", 0), 12 * 16 if tier == "quick" else 6 * 32),
             ("public callables never exercised (must be 0)", -len(uncovered), 0),
         ],
         "coverage_extra": {"public_surface_size": len(surface), "public_callables_not_exercised": uncovered,
